@@ -8,10 +8,48 @@
 
 use std::borrow::Borrow;
 use std::cell::RefCell;
-use std::hash::{BuildHasherDefault, Hash};
+use std::hash::Hash;
 use std::panic::Location;
 
-type FixedState = BuildHasherDefault<std::collections::hash_map::DefaultHasher>;
+// Hash function selected for this thread: 0 = the fixed default, 1 = every key hashes to the same value (lookups
+// then rely on `Eq` alone), 2 = a second fixed function. A model checker compares whole runs under the three modes:
+// for key types whose `Hash` agrees with their `Eq` the mode can only change iteration orders.
+thread_local! {
+    static HASH_MODE: std::cell::Cell<u8> = const { std::cell::Cell::new(0) };
+}
+
+/// Select the hash function used by containers created on this thread from now on (see HASH_MODE)
+///
+/// Must not be changed while containers created under another mode are alive.
+pub fn set_hash_mode(mode: u8) {
+    HASH_MODE.with(|m| m.set(mode));
+}
+
+#[derive(Clone, Default)]
+pub struct FixedState;
+
+pub struct ModeHasher(std::collections::hash_map::DefaultHasher, u8);
+
+impl std::hash::BuildHasher for FixedState {
+    type Hasher = ModeHasher;
+    fn build_hasher(&self) -> ModeHasher {
+        let mode = HASH_MODE.with(|m| m.get());
+        let mut inner = std::collections::hash_map::DefaultHasher::new();
+        if mode == 2 {
+            std::hash::Hasher::write_u64(&mut inner, 0x9E37_79B9_7F4A_7C15);
+        }
+        ModeHasher(inner, mode)
+    }
+}
+
+impl std::hash::Hasher for ModeHasher {
+    fn write(&mut self, bytes: &[u8]) {
+        self.0.write(bytes)
+    }
+    fn finish(&self) -> u64 {
+        if self.1 == 1 { 0 } else { self.0.finish() }
+    }
+}
 type InnerMap<K, V> = std::collections::HashMap<K, V, FixedState>;
 type InnerSet<K> = std::collections::HashSet<K, FixedState>;
 
@@ -105,7 +143,7 @@ impl<K, V> HashMap<K, V> {
     pub fn with_capacity(capacity: usize) -> Self {
         HashMap(InnerMap::with_capacity_and_hasher(
             capacity,
-            FixedState::default(),
+            FixedState,
         ))
     }
 
@@ -158,7 +196,7 @@ impl<K> HashSet<K> {
     pub fn with_capacity(capacity: usize) -> Self {
         HashSet(InnerSet::with_capacity_and_hasher(
             capacity,
-            FixedState::default(),
+            FixedState,
         ))
     }
 
